@@ -747,10 +747,16 @@ func (vfs *MemFS) RemoveAll(path string) error {
 	parent.mu.Lock()
 	defer parent.mu.Unlock()
 
-	if c, ok := child.(*dirNode); ok && len(c.children) != 0 {
-		err = vfs.removeAll(c)
-		if err != nil {
-			return &fs.PathError{Op: op, Path: path, Err: err}
+	if c, ok := child.(*dirNode); ok {
+		c.mu.RLock()
+		empty := len(c.children) == 0
+		c.mu.RUnlock()
+
+		if !empty {
+			err = vfs.removeAll(c)
+			if err != nil {
+				return &fs.PathError{Op: op, Path: path, Err: err}
+			}
 		}
 	}
 
@@ -759,7 +765,10 @@ func (vfs *MemFS) RemoveAll(path string) error {
 	}
 
 	parent.removeChild(pi.Part())
+
+	child.Lock()
 	child.delete()
+	child.Unlock()
 
 	return nil
 }
@@ -783,7 +792,10 @@ func (vfs *MemFS) removeAll(parent *dirNode) error {
 		// The entry is removed together with the node, so that an error
 		// in a later entry leaves a consistent directory.
 		parent.removeChild(name)
+
+		child.Lock()
 		child.delete()
+		child.Unlock()
 	}
 
 	return nil
@@ -870,9 +882,13 @@ func (vfs *MemFS) Rename(oldpath, newpath string) error {
 		// A file or a symbolic link can only replace a file or a symbolic link.
 		switch nc := nChild.(type) {
 		case *fileNode:
+			nc.mu.Lock()
 			nc.delete()
+			nc.mu.Unlock()
 		case *symlinkNode:
+			nc.mu.Lock()
 			nc.delete()
+			nc.mu.Unlock()
 		default:
 			err := error(avfs.ErrFileExists)
 			if vfs.OSType() == avfs.OsWindows {
